@@ -49,12 +49,14 @@ def make_cfg(cfg, types=None):
     from pewlib.config import Config, SpotConfig
 
     t = types or {}
+    pos = bool(t.get("_positional"))  # the parameters in the documented order instead of by keyword
     if cfg["kind"] == "raster":
-        return Config(spotsize=typed(cfg["spotsize"], t.get("spotsize")), speed=typed(cfg["speed"], t.get("speed")),
-                      scantime=typed(cfg["scantime"], t.get("scantime")))
+        a = (typed(cfg["spotsize"], t.get("spotsize")), typed(cfg["speed"], t.get("speed")), typed(cfg["scantime"], t.get("scantime")))
+        return Config(*a) if pos else Config(spotsize=a[0], speed=a[1], scantime=a[2])
     if t.get("sy") == "omitted" and cfg["sx"] == cfg["sy"]:
-        return SpotConfig(spotsize=typed(cfg["sx"], t.get("sx")))
-    return SpotConfig(spotsize=typed(cfg["sx"], t.get("sx")), spotsize_y=typed(cfg["sy"], t.get("sy")))
+        return SpotConfig(typed(cfg["sx"], t.get("sx"))) if pos else SpotConfig(spotsize=typed(cfg["sx"], t.get("sx")))
+    a = (typed(cfg["sx"], t.get("sx")), typed(cfg["sy"], t.get("sy")))
+    return SpotConfig(*a) if pos else SpotConfig(spotsize=a[0], spotsize_y=a[1])
 
 
 # ----------------------------------------------------------------------------- SRR inputs (shared with C09)
@@ -138,6 +140,9 @@ def gen_srr(rng, max_vox=24000, force_valid=True):
             s0 = s1 = max(l0, l1) * M + rng.choice([0, 1, 2, 5])
         if (l0 * M * p + ov) * (l1 * M * p + ov) * n > max_vox:
             continue
+        if rng.random() < 0.08:  # extreme magnitudes: spot size and speed times 2^k (exact, so the magnification is the same float integer)
+            k = rng.choice([-1000, -600, -80, 80, 600, 900])
+            spotsize, speed = math.ldexp(spotsize, k), math.ldexp(speed, k)
         return {"spotsize": spotsize, "speed": speed, "scantime": scantime, "warmup": seconds, "pairs": pairs,
                 "mag": M, "n": n, "shapes": [[l0, s0], [l1, s1]], "short": short, "wmode": mode}
     raise core.InternalError("could not generate an SRR case")
@@ -239,7 +244,7 @@ def safe_types(cfg, types, rows, cols):
     if not types:
         return types
     ok = max(rows, cols) <= 100 and all(f32_exact(v) for k, v in cfg.items() if k != "kind")
-    return {k: (t if (t != "f32" or ok) else "float") for k, t in types.items()}
+    return {k: (t if (t != "f32" or ok) else "float") for k, t in types.items()}  # ("_positional": True passes through)
 
 
 def typed(v, t):
@@ -356,30 +361,44 @@ def srr_vox(pairs, M, l0, l1, n):
 class C10(Prop):
     id = "C10"
     anchored = ["src/pewlib/config.py", "src/pewlib/laser.py", "src/pewlib/srr/config.py", "src/pewlib/srr/srr.py"]
-    cases = {"quick": 950, "thorough": 38000}
+    cases = {"quick": 950, "thorough": 32000}
     rule = ("raster/spot configs with parameters from pools of binary-inexact values (0.1*3, 33.3*1.3, 0.007, 1/3 ...), "
             "their products and random decimals; shapes 1..8 (every pixel-aligned rectangle read), medium and up to 4000 per side "
-            "(random aligned rectangles incl. own extent, empty, first/last row/column); bounds computed as k*px, as the correctly "
-            "rounded exact product, and one ulp above/below; SRR stacks (2..5 crossed layers, mag 1..4 from float-integer triples, "
-            "warm-up, offsets) for extent/pixel = reconstructed shape; histories on ONE Laser object (2..5 steps: observe extent / pixel "
-            "sizes / own-extent read / aligned reads, then edit one or several configuration attributes in place, replace the "
-            "configuration object, assign data of another shape, add/remove an element, observe again - each observation against the "
-            "model/spec for the configuration and shape held then) and on ONE SRRLaser object (offsets, equal offsets, warm-up, spot "
-            "size/speed/scan time edited in place, configuration replaced; the driver is told the constructor arguments and the sequence of "
-            "setter calls, Lean's setters compute the state). Every extent observation also encodes the real to_array() result (dtype names, "
-            "shape, values) for the driver and runs Config.from_array / SpotConfig.from_array on the real arrays of all three configuration "
-            "classes (outcome or exception class against the model's from_array). Every case is non-trivial; distinct by canonical case hash")
+            "(random aligned rectangles incl. own extent, empty, first/last row/column), long images (one side >= 4096 and >= 2^16 really "
+            "allocated and read near the far end; extents alone up to 2^28 per side on a broadcast view); bounds computed from the APPLIED "
+            "parameters as k*px, as the correctly rounded exact product, and one ulp above/below, or the extent pewlib reports; parameters, "
+            "bounds and data of other numeric types (int, np.int64, np.float64, 0-d arrays, float32 where float32 arithmetic is exact; data "
+            "fields f8/f4/i8/i4/u2, Fortran order, strided views; the extent as tuple/list/array; calibrate omitted/False/None; "
+            "Laser.from_list; positional constructor arguments); extreme magnitudes (1e-300, 1e300, subnormal, DBL_MAX); SRR stacks (2..5 "
+            "crossed layers, mag 1..7 from float-integer triples, warm-up 0..500 samples, offsets lists shorter and longer than the stack, "
+            "parameters scaled by 2^k, reconstruction read before or after the extent, by get() / get(element) / get(flat=True)) for "
+            "extent/pixel = reconstructed shape; histories on ONE Laser object (kind hist) and on several configuration objects and several "
+            "lasers that may SHARE one (kind heap: every attribute of the class in every order, through the laser or through the harness's own "
+            "reference, configuration replaced and the old object forgotten so that its id() is reused, copy.copy / deepcopy of a laser, data of "
+            "the same or another shape / dtype / layout, elements added and removed; every observation - extent, pixel sizes alone, own-extent "
+            "read, aligned read - judged against Lean's `viewSpec` of the operations the harness performed, never against values read back "
+            "from pewlib) and on SRRLaser objects (offsets, equal offsets, warm-up, spot size / speed / scan time one by one in any order, "
+            "configuration replaced, layers replaced in the list or as a list, a second SRRLaser given the SAME configuration object; the "
+            "driver is told the constructor arguments and the sequence of setter calls, Lean's setters compute the state). Every extent "
+            "observation also encodes the real to_array() result (dtype names, field dtypes, shape, values) for the driver, demands that the "
+            "configuration read back holds exactly the applied values, and runs Config.from_array / SpotConfig.from_array on the real arrays "
+            "of all three configuration classes. Every case is non-trivial; distinct by canonical case hash")
     trusted = [
-        "float64 multiplication/division are correctly rounded, hence for the generated magnitudes (indices <= 4000) the float "
-        "quotient bound/pixel-size is within 5e-7 of the exact quotient (assumption of get_aligned_rect); the model evaluates the exact quotient",
+        "CPython float multiplication/division are IEEE-754 binary64 round-to-nearest-even, which is what PewModel/Srr.lean `fl` computes "
+        "in the normal exponent range; given that, theorems get_float_aligned / get_float_own_extent PROVE that every bound within k*p/2^50 of "
+        "its boundary (k <= 2^28) converts to k (no assumption on the quotient error any more); values outside the normal range are recorded only",
         "Python round(x, 6) is round-half-even on the exact value of x and int() truncates (theorem get_aligned_rect shows no tie is reachable)",
-        "extent values are compared with the exact rational at 1e-12 relative; SRR extent/pixel ratios with the integer shape at 1e-9 relative",
+        "extent values are compared with the exact rational at 1e-12 relative (theorem extent_float_close: the float64 pipeline is within 2^-51); "
+        "bit-for-bit agreement with the float64 model is recorded, not demanded; SRR extent/pixel ratios with the integer shape at 1e-9 relative",
         "SRR: 'integer magnification' means spotsize/(speed*scantime) evaluates to an integer in float64 (DESIGN 6a); the driver computes "
         "that float64 value from the inputs (PewModel/Srr.lean `fl`) and the SRR configuration from the constructor / setter inputs",
         "structured arrays: NumPy >= 2 semantics of float(array) (TypeError unless 0-d), array[name] (ValueError for a missing field), "
         "indexing a 0-d array (IndexError); arrays are encoded for the driver field by field (names in dtype order, shape, exact values)",
-        "structural ties: the ~350-line typed translator harness/structural_c10.py (expression trees of the SRR configuration arithmetic, "
-        "SRRLaser.extent, Laser.get's index conversion -> Lean definitions, proved equal to the model functions on every run)",
+        "Python object semantics assumed by the heap-history model: attribute assignment changes the one object, `a.config = obj` stores a "
+        "reference (checked with `is` after every assignment and construction; a copy made by pewlib is told to the driver as a copy)",
+        "structural ties: the ~900-line typed translator harness/structural_c10.py (expression trees of the SRR configuration arithmetic, "
+        "SRRLaser.extent, Laser.shape/extent, Laser.get's index conversion and slice, to_array of the three classes, from_array of Config and "
+        "SpotConfig incl. the constructor's parameter -> attribute mapping -> Lean definitions, proved equal to the model functions on every run)",
     ]
     assumptions = [
         "SRR extent/shape clause: when the model's validity check accepts the configuration the demanded shape is Lean's "
@@ -531,6 +550,8 @@ class C10(Prop):
                     cfg["sy"] = cfg["sx"]
                     ts["sy"] = "omitted"
                 st["types"] = ts
+            if rng.random() < 0.15:
+                st["types"] = {**st.get("types", {}), "_positional": True}
             steps.append(st)
             kinds.append(cfg["kind"])
             return len(kinds) - 1
@@ -561,8 +582,13 @@ class C10(Prop):
         c0 = new_cfg()
         l0 = new_laser(c0, not two)
         if two:
-            mode = rng.choice(["share-mine", "share-laser", "separate", "second-config"])
-            l1 = new_laser(c0 if mode != "second-config" else new_cfg(), False)
+            mode = rng.choice(["share-mine", "share-laser", "separate", "second-config", "copy", "deepcopy"])
+            if mode in ("copy", "deepcopy"):  # copy.copy(laser): the same configuration object and data; deepcopy: its own
+                steps.append({"s": "copy", "laser": l0, "deep": mode == "deepcopy"})
+                L.append({**L[l0], "key": L[l0]["key"] if mode == "copy" else f"c{len(L)}"})
+                l1 = len(L) - 1
+            else:
+                l1 = new_laser(c0 if mode != "second-config" else new_cfg(), False)
             if mode == "share-mine":  # both lasers hold the object the harness made
                 for j in (l0, l1):
                     steps.append({"s": "assign", "laser": j, "cfg": c0})
@@ -857,6 +883,10 @@ class C10(Prop):
                 extra = {"dtypes": [rng.choice(sorted(DTYPES)) for _ in range(2)], "layout": rng.choice(["C", "F", "view"])}
         own = rect == [0, rows, 0, cols] and rng.random() < 0.7
         modes = ["own"] * 4 if own else [rng.choice(["mul", "mul", "exact", "up", "down"]) for _ in range(4)]
+        if rng.random() < 0.15:
+            extra = {**extra, "ctor": "from_list"}
+        if rng.random() < 0.2:
+            extra = {**extra, "types": {**extra.get("types", {}), "_positional": True}}
         return {"kind": "get", "cfg": cfg, "rows": rows, "cols": cols, "nel": nel, "element": element, "rect": rect, "modes": modes, **extra}
 
     def targeted(self, tier):
@@ -1023,7 +1053,7 @@ class C10(Prop):
             yield {"kind": "get", "cfg": cfg, "rows": rows, "cols": cols, "nel": 1, "element": 0, "rect": [0, rows, 0, cols], "modes": ["own"] * 4}
 
     # ------------------------------------------------------------------ evaluation
-    def make_laser(self, cfg, rows, cols, nel, tokens=True, types=None, dtypes=None, layout="C"):
+    def make_laser(self, cfg, rows, cols, nel, tokens=True, types=None, dtypes=None, layout="C", ctor=None):
         from pewlib.laser import Laser
 
         names = ["A", "B"][:nel]
@@ -1031,6 +1061,8 @@ class C10(Prop):
             data = np.broadcast_to(np.zeros((), dtype=[(n, np.uint8) for n in names]), (rows, cols))
         else:
             data = token_data(rows, cols, list(zip(names, range(nel))), dtypes, layout)
+        if tokens and ctor == "from_list":  # the other public way to make a Laser (the fields become float64)
+            return Laser.from_list(names, [data[n] for n in names], config=make_cfg(cfg, types)), names
         return Laser(data, config=make_cfg(cfg, types)), names
 
     def observe_extent(self, laser, cfg, rows, cols, ctx, feats=None):
@@ -1132,7 +1164,7 @@ class C10(Prop):
             if max(rows, cols) >= lim:
                 feats.add(name)
         for k, t in sorted((types or {}).items()):
-            if k in cfg:
+            if k in cfg and isinstance(t, str):
                 feats.add("parameter type: " + type_used(cfg[k], t))
         return outcome(impl, m, s, spec_ok=spec_ok, model_ok=model_ok, features=feats)
 
@@ -1243,11 +1275,20 @@ class C10(Prop):
     def eval_get(self, case, ctx, rects):
         cfg, rows, cols, nel = case["cfg"], case["rows"], case["cols"], case["nel"]
         types = safe_types(cfg, case.get("types"), rows, cols)
-        laser, names = self.make_laser(cfg, rows, cols, nel, types=types, dtypes=case.get("dtypes"), layout=case.get("layout", "C"))
+        laser, names = self.make_laser(cfg, rows, cols, nel, types=types, dtypes=case.get("dtypes"), layout=case.get("layout", "C"),
+                                       ctor=case.get("ctor"))
+        if case.get("ctor") == "from_list":
+            feats_ctor = "laser made by Laser.from_list"
+        else:
+            feats_ctor = None
         fields = list(zip(names, range(nel)))
         full = rows * cols <= 64
         impl, model, spec = [], [], []
         feats = {"get", cfg["kind"], "structured-read" if case["element"] is None else "element-read"}
+        if feats_ctor:
+            feats.add(feats_ctor)
+        if (types or {}).get("_positional"):
+            feats.add("configuration made with positional arguments")
         undet = False
         hyp = model_ok = True
         for rect, modes in rects:
@@ -1261,7 +1302,7 @@ class C10(Prop):
             model_ok = model_ok and mok
         feats.add("side>=1000" if max(rows, cols) >= 1000 else ("side<=8" if max(rows, cols) <= 8 else "side 9..999"))
         for k, t in sorted((types or {}).items()):
-            if k in cfg:
+            if k in cfg and isinstance(t, str):
                 feats.add("parameter type: " + type_used(cfg[k], t))
         for d in sorted(set(laser.data.dtype[n].str for n in laser.data.dtype.names)):
             feats.add("data dtype " + d)
@@ -1299,6 +1340,8 @@ class C10(Prop):
         if not mj["integer_mag"] or mj["mag"] != cur["mag"]:
             raise core.InternalError("generator: the model's float64 magnification is not the intended integer")
         noffs = len(rep["offs"])
+        if not (1e-60 < cur["spotsize"] < 1e60):
+            feats.add("srr: parameters scaled by 2^k, |k| >= 600")
         feats |= {"srr", f"mag{cur['mag']}", f"layers{len(shapes)}",
                   "warmup=0" if rep["warmup"] == 0 else ("warmup>=40 samples" if rep["warmup"] >= 40 else "warmup>0"),
                   "non-square" if shapes[0][0] != shapes[1][0] else "square",
@@ -1514,8 +1557,10 @@ class C10(Prop):
                 kinds.append(st["cfg"]["kind"])
                 dops.append({"op": "newCfg", "cfg": cfg_json(st["cfg"])})
                 for k, t in sorted((st.get("types") or {}).items()):
-                    if k in st["cfg"]:
+                    if k in st["cfg"] and isinstance(t, str):
                         feats.add("parameter type: " + type_used(st["cfg"][k], t))
+                if (st.get("types") or {}).get("_positional"):
+                    feats.add("configuration made with positional arguments")
             elif op == "laser":
                 k = mine[st["cfg"]] if 0 <= st["cfg"] < len(mine) else -1
                 if not (0 <= k < len(objs)) or objs[k] is None:
@@ -1556,6 +1601,25 @@ class C10(Prop):
                 note("config assigned", [j])
                 if sum(1 for M in lasers if M["held"] == L["held"]) > 1:
                     feats.add("one configuration object shared by two lasers")
+            elif op == "copy":  # copy.copy(laser) shares configuration object and data; copy.deepcopy(laser) shares nothing
+                import copy as _copy
+
+                j = st["laser"]
+                if not (0 <= j < len(lasers)):
+                    continue
+                L0 = lasers[j]
+                twin = (_copy.deepcopy if st.get("deep") else _copy.copy)(L0["laser"])
+                L = {**L0, "laser": twin, "fields": list(L0["fields"])}
+                if twin.config is L0["laser"].config:
+                    feats.add("copy.copy of a laser: the configuration object is shared")
+                else:
+                    dops.append({"op": "copyCfg", "src": L0["held"]})
+                    objs.append(None)
+                    kinds.append(kinds[L0["held"]])
+                    L["held"] = len(objs) - 1
+                    feats.add("copy of a laser with its own configuration object")
+                dops.append({"op": "newLaser", "cfg": L["held"], "rows": L["rows"], "cols": L["cols"]})
+                lasers.append(L)
             elif op in ("set", "setl"):
                 if op == "set":
                     k = mine[st["cfg"]] if 0 <= st["cfg"] < len(mine) else -1
